@@ -245,5 +245,17 @@ func genC12(w *bufio.Writer, tier string, rng *rand.Rand) {
 		if rng.Intn(8) == 0 && nx >= 2 {
 			fmt.Fprintf(w, "bw %s\n", fmtFs(xs))
 		}
+		if rng.Intn(12) == 0 { // bandwidth rules on heavily tied samples: the middle half (or all but one value) coincides
+			m := 4 + rng.Intn(12)
+			ys := make([]float64, m)
+			c := float64(rng.Intn(9) - 4)
+			for i := range ys {
+				ys[i] = c
+			}
+			for q := 0; q < 1+rng.Intn(m/4+1); q++ {
+				ys[rng.Intn(m)] = c + float64(rng.Intn(17)-8)/2
+			}
+			fmt.Fprintf(w, "bw %s\n", fmtFs(ys))
+		}
 	}
 }
